@@ -11,8 +11,8 @@ FIFO order at arbitrary times, under **any** sequence of `take / check / request
   skipped, starting with the first common id;
 * returned ids are strictly increasing (`C02_strict_order`), hence the returned sequence is exactly the ascending list of
   common ids below the frontier.
-"partial": one topic per source and all-topics (non-`*`) subscriptions; multi-topic blocks, explicit subscriptions and
-ephemeral side sources are covered by the MQNet exploration and the adversarial feeds only.  Progress (the frontier
+"partial": one topic per source, subscribed with all topics (`addr`) or explicitly, possibly remapped (`addr;t`, `addr;t>d`);
+multi-topic blocks, `*` subscriptions and ephemeral side sources are covered by the MQNet exploration and the adversarial feeds only.  Progress (the frontier
 eventually passes every common id) is a liveness statement and is not claimed.
 -/
 namespace OF.Recv
@@ -71,7 +71,7 @@ theorem take_frontier (sp : JSpec) (hsp : SpecOK sp) (n : NSt) (i : Nat) (h : JI
           ⟨hlt, h0, hb0, hr0, _⟩ | ⟨hge, h0, hT, hr0, _, hgap, _⟩
         · refine frontier_same sp n _ _ hret ?_
           simp only
-          rw [onTake_older n.st i s0 w q hs hq hp h0 (hexp ▸ hlt) hb0]
+          rw [onTake_older n.st i s0 w q hs hq hp.1 h0 (hexp ▸ hlt) hb0]
           rfl
         · have hge' : n.st.minRecvId ≤ w.mid := hexp ▸ hge
           right; left
@@ -84,12 +84,17 @@ theorem take_frontier (sp : JSpec) (hsp : SpecOK sp) (n : NSt) (i : Nat) (h : JI
           rw [he'] at h2
           exact hgap c (hc i ids ei) h1 h2
 
-theorem got_all_complete (t : Topic) (ids : List Int) (F : Int) (s : Src) (rem : List Wire)
+theorem idle_not_all (t : Topic) (s : Src) (hp : PlainSrc t s) (hr : s.recvd = recvdNew s) : got s ≠ .all := by
+  rcases hp with ⟨_, _, ⟨h1, h2⟩ | ⟨d, h1, h2⟩⟩
+  · unfold got; rw [hr]; unfold recvdNew; simp [h1]
+  · unfold got; rw [hr, recvdNew_explicit s t d h1 h2]; simp
+
+theorem got_all_complete (t : Topic) (ids : List Int) (F : Int) (s : Src) (rem : List Wire) (hp : PlainSrc t s)
     (hok : SrcOK t ids F s rem) (hg : got s = .all) : F ∈ ids := by
   rcases hok with ⟨pre, rest, ws, e1, _, h⟩
   rcases h with ⟨_, h2, _, _⟩ | ⟨_, _, _, _, _, h2, _, _⟩ | ⟨_, _, pre', h1, _, _, _, _, _, _⟩
-  · unfold got at hg; rw [h2] at hg; cases hg
-  · unfold got at hg; rw [h2] at hg; cases hg
+  · exact absurd hg (idle_not_all t s hp h2)
+  · exact absurd hg (idle_not_all t s hp h2)
   · rw [e1, h1]; simp
 
 theorem check_frontier (sp : JSpec) (n : NSt) (h : JInv sp n) :
@@ -122,7 +127,7 @@ theorem check_frontier (sp : JSpec) (n : NSt) (h : JInv sp n) :
       rcases hall j _ hsj with ⟨t, ids', fut, _, ei, _, hp, hok⟩
       rw [hj] at ei; cases ei
       have := (hspec _ (List.getElem_mem hj')).2 hp.1 hbal
-      exact got_all_complete t ids _ _ _ hok this
+      exact got_all_complete t ids _ _ _ hp hok this
     unfold finish
     simp only
     have hreq : retIds (if (!n.st.lowLat && decide (n.st.balanced ≠ 1)) = true then requests n.st n.st.minRecvId else []) = [] := by
@@ -293,7 +298,7 @@ theorem init_JInv (sp : JSpec) (streams : List (List Wire)) (lowLat : Bool)
     simp only [Option.map_some, Option.some.injEq] at hj
     subst hj
     rcases hst j t ht with ⟨ids, ws, e1, e2, e3⟩
-    refine ⟨t, ids, ws, rfl, e1, e2, ⟨rfl, rfl, rfl, rfl⟩, ?_⟩
+    refine ⟨t, ids, ws, rfl, e1, e2, ⟨rfl, rfl, Or.inl ⟨rfl, rfl⟩⟩, ?_⟩
     refine ⟨[], ids, ws, rfl, e3, Or.inl ⟨by simp [mkSrc], rfl, rfl, by intro c hc; cases hc⟩⟩
 
 /-! non-vacuity: two sources, ids [0,1,2] and [0,2]; whatever the schedule below does, exactly the common ids come out -/
@@ -311,5 +316,29 @@ example : retIds (nrun exN0
      .recv (.begin none), .recv (.take 0), .recv (.take 0), .recv (.take 1), .recv .check, .recv .request, .recv .timeout,   -- A/1 waits, call times out
      .recv (.begin none), .recv (.take 1), .recv .check,                                                                   -- B/2 is newer: A/1 dropped
      .deliverNext 0, .deliverNext 0, .recv (.take 0), .recv (.take 0), .recv .check]).2 = [0, 2] := by decide +kernel
+
+end OF.Recv
+
+namespace OF.Recv
+
+/-- the same for any freshly constructed plain sources, all-topics or explicit / remapped -/
+theorem init_JInv' (sp : JSpec) (srcs : List Src) (streams : List (List Wire)) (lowLat : Bool)
+    (hlen : srcs.length = sp.ids.length)
+    (hsrc : ∀ (j : Nat) (s : Src), srcs[j]? = some s →
+      ∃ t ids ws, sp.topics[j]? = some t ∧ sp.ids[j]? = some ids ∧ streams[j]? = some ws ∧ Stream t ids ws ∧
+        PlainSrc t s ∧ s.recvd = recvdNew s ∧ s.reg = true ∧ s.queue = []) :
+    JInv sp { st := mkSt srcs false lowLat, future := streams } := by
+  intro _
+  refine ⟨rfl, by simp [mkSt, hlen], ?_⟩
+  intro j s hj
+  simp only [mkSt] at hj
+  rcases hsrc j s hj with ⟨t, ids, ws, e1, e2, e3, e4, hp, hr, hg, hq⟩
+  refine ⟨t, ids, ws, e1, e2, e3, hp, ?_⟩
+  rw [hq]
+  exact ⟨[], ids, ws, rfl, e4, Or.inl ⟨by simp, hr, hg, by intro c hc; cases hc⟩⟩
+
+/-- an explicit, remapped subscription (`addr;a>x`) is a plain source -/
+example : PlainSrc "a" (mkSrc 0 (some [("a", "x")])) ∧ (mkSrc 0 (some [("a", "x")])).recvd = recvdNew (mkSrc 0 (some [("a", "x")])) := by
+  refine ⟨⟨rfl, rfl, Or.inr ⟨"x", by decide, by decide⟩⟩, by decide⟩
 
 end OF.Recv
